@@ -4,7 +4,7 @@ import json, os
 V = os.path.dirname(os.path.dirname(os.path.abspath(__file__)))
 ALL = ["C%02d" % i for i in range(1, 21)]
 CHECKS = {
- "C01": dict(text="Lean theorem C01_eval_eq_spec_partial: for every well-formed table (any number of dimensions, any orders, any admissible knot vector incl. the minimum length and repeated knots, arbitrary padding values) and every point the lookup accepts, the model of ndsplineeval (margin loops, de Boor recurrence, re-indexing, block walk) equals the sum over ALL coefficients of coefficient x product of Cox-de Boor basis functions with the property's knot convention, over any linearly ordered field; C01_ones (partition of unity); C01_callOp for operator(); C01_rounding_envelope_partial / C01_rounded_eval_near_spec_partial: the same model run with every operation and every store rounded by ANY roundings of relative error eps (the standard model of IEEE arithmetic without under/overflow, C01_standard_model) stays within ((1+eps)^K-1) * sum|coef|*prod B of the specification, K = 3+ndim(7 maxorder+3)+2 prod(order+1), at every point inside a non-empty knot interval of the fully supported range, and C01_envelope_linear shows this is below the envelope the check allows (margins, derivatives, underflow stay with the measured envelope). Tied to the code by running the same Lean definitions at IEEE double/float storage (bit-identical to ndsplineeval<double|float> on every case) and by comparing the C++ result with the exact rational specification inside a rounding envelope.",
+ "C01": dict(text="Lean theorem C01_eval_eq_spec_partial: for every well-formed table (any number of dimensions, any orders, any admissible knot vector incl. the minimum length and repeated knots, arbitrary padding values) and every point the lookup accepts, the model of ndsplineeval (margin loops, de Boor recurrence, re-indexing, block walk) equals the sum over ALL coefficients of coefficient x product of Cox-de Boor basis functions with the property's knot convention, over any linearly ordered field; C01_ones (partition of unity); C01_callOp for operator(); C01_rounding_envelope_partial / C01_rounded_eval_near_spec_partial: the same model run with every operation and every store rounded by ANY roundings of relative error eps (the standard model of IEEE arithmetic without under/overflow, C01_standard_model) stays within ((1+eps)^K-1) * sum|coef|*prod B of the specification, K = 3+ndim(7 maxorder+3)+2 prod(order+1), at every point the lookup accepts — interior, both margins, exactly on knots; hypotheses of the exact theorem (C01_rounding_envelope_all_partial; C01_rounding_envelope_partial is the interior case with explicit hypotheses) — and C01_envelope_linear shows this is below the envelope the check allows (derivatives and underflow stay with the measured envelope). Tied to the code by running the same Lean definitions at IEEE double/float storage (bit-identical to ndsplineeval<double|float> on every case) and by comparing the C++ result with the exact rational specification inside a rounding envelope.",
              note="Trusted: Lean kernel + 3 standard axioms; hand-written model validated bit-for-bit each run; floating-point rounding is outside the theorem (envelope K*u*S assumed, worst measured ratio reported); one input class is excluded from the theorem and listed as known finding (x == knots[naxes] with an empty last interval; Lean witness C01_degenerate_upper_end).",
              technique="Lean 4 proof (induction over the de Boor recurrence, window/sum lemmas over dimensions) + bit-exact differential run of the model + exact-rational oracle", ref="4/C01"),
  "C02": dict(text="Lean theorems, over any linearly ordered field, any number of dimensions, any orders and admissible knot vectors: C02_mask_eval_eq_spec_partial (evaluation with any derivative bitmask = sum over all coefficients of coefficient x product of basis functions or their knot-difference derivative formula, one-sided convention of C01), C02_deriv_eval_eq_spec_partial (ndsplineeval_deriv with arbitrary per-dimension derivative orders = the iterated formula), C02_formula_is_derivative / C02_formula_is_iterated_derivative (the k-fold formula is Polynomial.derivative^[k] of the polynomial piece, repeated knots allowed), C02_gradient_eq_mask_evals (for EVERY arithmetic, orders >= 1: ndsplineeval_gradient = [ndsplineeval(.,0), ndsplineeval(.,1<<0), ..., ndsplineeval(.,1<<(ndim-1))] operation for operation, hence bit for bit) and C02_gradient_eq_spec_partial (each lane = the specification sum), order-0 and above-order derivatives are zero. Tied to the code by running the same definitions at IEEE double/float storage (bit-identical to ndsplineeval, ndsplineeval_deriv, ndsplineeval_gradient on every case) and by comparing the C++ results with the exact rational derivative inside a rounding envelope.",
